@@ -112,7 +112,7 @@ impl ScannerImpl {
         for (i, scanner_mode) in self.scanner_modes.iter().enumerate() {
             debug!("Compiled DFA: Mode {} \n{}", i, {
                 let mut cursor = std::io::Cursor::new(Vec::new());
-                let title = format!("Compiled DFA {}", scanner_mode.name);
+                let title = format!("Compiled DFA {}", scanner_mode.name.escape_default());
                 super::dot::compiled_dfa_render(
                     &scanner_mode.dfa,
                     &title,
@@ -138,7 +138,7 @@ impl ScannerImpl {
     ) -> crate::Result<()> {
         use std::fs::File;
         for scanner_mode in self.scanner_modes.iter() {
-            let title = format!("Compiled DFA {}", scanner_mode.name);
+            let title = format!("Compiled DFA {}", scanner_mode.name.escape_default());
             let file_name = format!(
                 "{}/{}_{}.dot",
                 target_folder.to_str().unwrap(),
